@@ -33,6 +33,7 @@ var replayFile = flag.String("hx.replay", "", "replay a saved Program (JSON) ins
 
 // Case is handed to the interpreter so that it can describe what it explored.
 type Case struct {
+	mu     sync.Mutex // interpreters may label from several goroutines
 	nt     bool
 	labels map[string]int
 	known  []string
@@ -40,10 +41,12 @@ type Case struct {
 }
 
 // NonTrivial marks this case as satisfying the check's non-triviality rule.
-func (c *Case) NonTrivial() { c.nt = true }
+func (c *Case) NonTrivial() { c.mu.Lock(); c.nt = true; c.mu.Unlock() }
 
 // Label counts an occurrence of a classification label.
 func (c *Case) Label(l string) {
+	c.mu.Lock()
+	defer c.mu.Unlock()
 	if c.labels == nil {
 		c.labels = map[string]int{}
 	}
@@ -59,6 +62,8 @@ func (c *Case) LabelIf(cond bool, l string) {
 
 // Logf keeps a line of trace that is printed if the case fails.
 func (c *Case) Logf(format string, a ...any) {
+	c.mu.Lock()
+	defer c.mu.Unlock()
 	if len(c.log) < 400 {
 		c.log = append(c.log, fmt.Sprintf(format, a...))
 	}
@@ -68,7 +73,9 @@ func (c *Case) Logf(format string, a ...any) {
 // finding; if so the occurrence is counted and the caller should not fail.
 func (c *Case) Known(sig string) bool {
 	if openFindings()[sig] {
+		c.mu.Lock()
 		c.known = append(c.known, sig)
+		c.mu.Unlock()
 		return true
 	}
 	return false
